@@ -38,6 +38,10 @@ TEXT = {
          "stuttering action of the accumulation machines: every program with round trips at every position is replayed on a serde-enabled harness and TLC "
          "requires restored == original and bit-identical observations with a twin history without round trips; Confidence and Interval values round-trip.",
          "TLC program enumeration + trace validation (twin histories); plain enumeration of cargo feature builds"),
+ "C11": ("totality", "The allowed outcomes of every entry point are a decision table over input classes in TLA+ (Totality.tla). TLC enumerates the table "
+         "(entry point x call style x offending class x position x kind x level x float type), the harness executes each case with panics caught as data, "
+         "and TLC judges every recorded outcome: error variant in the allowed set, no panic outside the documented ones, no Ok with NaN bounds or low > high.",
+         "TLC enumeration of the decision table + trace validation (fault enumeration over input classes)"),
 }
 PENDING_REASON = "check not built yet in this round (planned, see DESIGN.md section 4); not claimed"
 
@@ -79,6 +83,9 @@ def main():
             {"name": "accum", "path": "spec/Accum.tla spec/MC_Accum.tla spec/Gen_Accum.tla spec/Trace_Accum.tla spec/Gen_Build.tla spec/Trace_Build.tla harness/src/accum.rs",
              "serves_properties": ["C09", "C20"],
              "kind_free_text": "TLA+ state machines of the incremental statistics (bags), refinement check, BFS program generator, stateful trace validator"},
+            {"name": "totality", "path": "spec/Totality.tla spec/Gen_Totality.tla spec/Trace_Totality.tla harness/src/prod.rs",
+             "serves_properties": ["C11"],
+             "kind_free_text": "decision table input class -> allowed outcomes, generator and validator"},
             {"name": "interval", "path": "spec/Interval.tla spec/IntervalSession.tla spec/MC_Interval.tla spec/Gen_Interval.tla spec/Trace_Interval.tla",
              "serves_properties": ["C07", "C13", "C14", "C15", "C19"],
              "kind_free_text": "TLA+ value algebra of intervals as closed sets; TLC model check + generator + trace validator"},
